@@ -495,6 +495,18 @@ def _normals(tier, seed):
         w2 = np.asarray(obs.lib("visualize_rotations", geom.visualize_rotations, rot, plot_rotations=False), dtype=float)
         obs.check(w2.shape == (m, 3) and np.abs(w2 - want).max() <= UNIT_TOL, "visualize_rotations", "zaxis-image",
                   lambda: f"batch of {m}: shape {w2.shape}, first row {w2.reshape(-1)[:3].tolist()} vs R e_z {want[0].tolist()}", cls=cls)
+        # the frame axes themselves (what cone / in-plane distances are built from): column j of R, single rotation or batch
+        for j, axn in enumerate("xyz"):
+            ax = np.asarray(obs.lib("get_axis_from_rotation", geom.get_axis_from_rotation, rot, axn), dtype=float)
+            wa = GM[idx][:, :, j] if k != 0 else GM[idx][0][:, j]
+            obs.check(ax.shape == wa.shape and np.abs(ax - wa).max() <= UNIT_TOL, "get_axis_from_rotation", "axis-is-column-of-R",
+                      lambda: f"axis {axn}, batch of {m}: shape {ax.shape}, first {ax.reshape(-1)[:3].tolist()} vs {wa.reshape(-1)[:3].tolist()}", cls=cls)
+        if m > 1:
+            w1, w2 = want, np.roll(want, 1, axis=0)
+            ang = np.asarray(obs.lib("angle_between_vectors", geom.angle_between_vectors, w1 * 2.5, w2 * 0.5), dtype=float)
+            wang = np.degrees(np.arctan2(np.linalg.norm(np.cross(w1, w2), axis=1), np.einsum("ij,ij->i", w1, w2)))
+            obs.check(ang.shape == (m,) and np.abs(ang - wang).max() <= 1e-5, "angle_between_vectors", "angle-is-angle-between-directions",
+                      lambda: f"batch of {m}: {ang[:4].tolist()} vs {wang[:4].tolist()}", cls=cls)
         obs.nontrivial = m > 1
         obs.outcome = _digest(v)
 
